@@ -200,7 +200,9 @@ Formats:
 
 	for _, m := range ms.Modules {
 		if mods[m.Name] == nil {
-			mods[m.Name] = m
+			// When several revisions of a module are loaded, its name
+			// denotes the latest one.
+			mods[m.Name] = ms.Modules[m.Name]
 			names = append(names, m.Name)
 		}
 	}
